@@ -471,7 +471,7 @@ def unit_loop(cfg):
           nice = ([v.cell.shape[0] > world for v in kt.args.values() if isinstance(v, core.ArrRef) and v.cell.ndim >= 1] + [world <= 1]) if per_world else []
           from checks.c30 import nice_replay
 
-          env = {"label": p}
+          env = {"label": p, "randomize_floats": 2}  # an accumulating write (+= J*f) of a degenerate solver model (f = 0) changes nothing: re-draw float contents, keep ints/flags
           if kt.cell(p).dtype in ("int", "real") and not any(v.cell is kt.cell(p) for q, v in kt.args.items() if q != p and isinstance(v, core.ArrRef)):
             env["sentinels"] = {p: -777 if kt.cell(p).dtype == "int" else -777.0}
           rp = lib.make_replay(ctx, kt, loc, f"frame/{p}", "goal", goal="checks.c25:goal_nowrite", env=env)
